@@ -42,6 +42,7 @@ MIN_COUNTERS = {
     "shared_row_entries_checked": {"quick": 300, "thorough": 3000},
     "call_as_monad_checked": {"quick": 5, "thorough": 50},
     "history_prefix_checked": {"quick": 8000, "thorough": 50000},
+    "lazy_vs_eager_height_compared": {"quick": 1500, "thorough": 20000},
 }
 MAX_INCONCLUSIVE_ABS = 5
 UNIT_TIMEOUT = 900
@@ -207,6 +208,14 @@ def run_history_case(producer, key, specs, res, variant="fresh"):
     return "completed"
 
 
+def _eagerised(spec):
+    if isinstance(spec, dict) and "lazy" in spec:
+        return [_eagerised(x) for x in spec["lazy"]]
+    if isinstance(spec, list):
+        return [_eagerised(x) for x in spec]
+    return spec
+
+
 def _exempt(kind, program, specs, mod=None):
     from lib.gen import elemcases as ec
 
@@ -297,6 +306,24 @@ def run_case(program, specs, res, kind="key", mod=None, replay_unit=None):
         if len(st) != len(lower) + len(args):
             problems.append(("result_count", f"† on a non-function consumed one entry and left {len(st) - len(lower) - len(args) + 1} results "
                              f"(stack height {len(st)}, expected {len(lower) + len(args)})"))
+    if not problems and kind == "key" and type(st) is list and any(ec.spec_is_lazy(sp) for sp in specs):
+        # how many entries an element consumes and leaves is documented per argument *type*; a list handed
+        # over lazily is the same type, so the same arguments with every lazy list made eager must leave a
+        # stack of the same height
+        eager_specs = [_eagerised(sp) for sp in specs]
+        try:
+            eargs = [values.from_spec(sp) for sp in eager_specs]
+        except Exception:  # noqa
+            eargs = None
+        if eargs is not None:
+            erun = ec.execute([program], ec.make_sentinels() + eargs)
+            if erun.completed and type(erun.stack) is list:
+                c["lazy_vs_eager_height_compared"] = c.get("lazy_vs_eager_height_compared", 0) + 1
+                want = len(erun.stack) + (1 if shadow is not None else 0)
+                if len(st) != want:
+                    problems.append(("stack_effect_depends_on_laziness",
+                                     f"final stack has {len(st) - len(lower)} entries above the prefix; with the same arguments as plain "
+                                     f"lists it has {len(erun.stack) - 3}"))
     if pops:
         p = pops[0]
         problems.append(("pop_below_line", f"pop of {p['count']} requested with {p['stack_len']} entries on the stack "
